@@ -186,6 +186,11 @@ func execRun(t *testing.T, sc *Scenario, tape *simrt.Tape, seed, run uint64, tie
 				sc.Run(rc)
 			}()
 			rc.SimTime = time.Since(start)
+			if sim.Stuck && sim.Deadlock != "" && len(rc.Viol) == 0 && len(sim.Panics) == 0 {
+				// safety net for scenarios that do not look at Stuck themselves: the run ended with
+				// tasks waiting for modelled locks that nothing can release any more
+				rc.Failf(sc.Prop+".stuck", "locks:"+lockSites(sim), "the run ended with goroutines waiting for locks of the library that can never be granted:\n%s", sim.Deadlock)
+			}
 			for _, p := range sim.Panics {
 				rc.Failf(sc.Prop+".panic", panicClass(p), "%s", p)
 			}
@@ -247,6 +252,32 @@ func execRun(t *testing.T, sc *Scenario, tape *simrt.Tape, seed, run uint64, tie
 	res.Named = tape.Named
 	res.TapeLen = len(tape.Rec) + len(tape.RecS)
 	return res
+}
+
+// lockSites: the sites at which tasks wait for modelled locks (file and function, no line).
+func lockSites(sim *simrt.Sim) string {
+	seen := map[string]bool{}
+	var out []string
+	for _, t := range sim.LiveTasks() {
+		k, site := t.Where()
+		if k != simrt.KLock && k != simrt.KRLock {
+			continue
+		}
+		if i := strings.LastIndex(site, ":"); i > 0 {
+			fn := ""
+			if j := strings.Index(site[i:], "@"); j >= 0 {
+				fn = site[i+j:]
+			}
+			site = site[:i] + fn
+		}
+		x := fmt.Sprintf("%s@%s", k, site)
+		if !seen[x] {
+			seen[x] = true
+			out = append(out, x)
+		}
+	}
+	sort.Strings(out)
+	return strings.Join(out, ",")
 }
 
 func panicClass(p string) string {
